@@ -324,7 +324,7 @@ def run_shard(ctx):
     if ctx.shard == 1 % ctx.nshards:
         registration_forms(ctx)
     e1.drive(ctx, ctx.tier, lambda tree, leaves, dsl, cfg: check(ctx, tree, leaves, dsl, cfg),
-             profile='small' if ctx.tier == 'quick' else 'full')
+             profile='small' if ctx.tier == 'quick' else 'full', extra_strata=(('aliasing', tuple(gen.aliasing_trees())),))
 
 
 def replay(case, ctx):
